@@ -33,7 +33,8 @@ type Prog struct {
 	GoFiles      int
 	IgnoredFiles int
 
-	pure     map[*types.Func]*pureEntry
+	pure        map[*types.Func]*pureEntry
+	transparent map[*types.Func]bool
 	decls    []*declInfo
 	src      *srcCache
 	Recovery *RecoveryReport // renames recognised against the embedded baseline, novel helpers
@@ -65,6 +66,21 @@ func (u *Unit) Pos() token.Pos {
 		return u.Decl.Pos()
 	}
 	return u.Lit.Pos()
+}
+
+// Owner is the unit this one belongs to: the enclosing unit of a literal, or —
+// for a closure that became a named function and kept the closure's key
+// (recoverClosures) — the unit the literal used to stand in.
+func (u *Unit) Owner() *Unit {
+	if u.Parent != nil {
+		return u.Parent
+	}
+	if u.Lit == nil {
+		if i := strings.LastIndex(u.Key, "$"); i >= 0 {
+			return u.Prog.byKey[u.Key[:i]]
+		}
+	}
+	return nil
 }
 
 // Root returns the enclosing declared function.
@@ -124,6 +140,8 @@ func Load(dir string) (*Prog, error) {
 	for _, pk := range p.All {
 		p.indexPkg(pk)
 	}
+	p.recoverClosures()
+	p.markTransparent()
 	return p, nil
 }
 
@@ -441,6 +459,10 @@ func (u *Unit) Kid(name string) *Unit {
 		if k.Key == u.Key+"$"+name {
 			return k
 		}
+	}
+	// a closure that became a named function keeps its key (recoverClosures)
+	if k := u.Prog.byKey[u.Key+"$"+name]; k != nil && k.Lit == nil {
+		return k
 	}
 	return nil
 }
